@@ -35,6 +35,14 @@ Model driver for C11. Line protocol (single spaces; "-" = empty list / empty str
   disc uris <uri,uri,...>                        -- ... or from ARVADOS_KEEP_SERVICES
     -> as for load, plus asked=<METHOD:path:auth of the API request | ->
 
+  abuf <inithex> <op,op,...>        -- calls on ONE asyncbuf.Buffer made with NewBuffer(init)
+      op = w<hex> Write | c Close | cx<tag> CloseWithError(error #tag) | n NewReader
+         | r<i>:<n> reader i calls Read with a buffer of n bytes
+    -> one result per op: w<n> | we:<err> | c | n<i> | g<hex> (bytes, nil error) | e:<err> | nr
+       | block   (the Read waits; it is completed right after the next op, which must be a non-empty
+                  Write or a close: its result follows that op's result; otherwise `stuck`, end)
+       err = EOF | X<tag>
+
   load <nd0> <uuid,host,port,ssl,type,ro;...>
     -> L=<uuid=url,...> W=<...> G=<...> rps=<n> nd=<0|1>          (maps sorted by uuid)
 -/
@@ -42,6 +50,7 @@ import ArvVerif.Base.Bytes
 import ArvVerif.Base.MD5
 import ArvVerif.Base.Loop
 import ArvVerif.Model.C11
+import ArvVerif.Model.C11_Abuf
 open ArvVerif ArvVerif.C11
 
 def splitOr (sep : String) (s : String) : List String :=
@@ -159,10 +168,8 @@ def runPut (entry : String) (want retries : Nat) (hash : String) (data : List Na
       { uuid := s.uuid.toList, host := s!"h{i}.example".toList, port := 25107, ssl := false,
         typ := (if s.disk then "disk" else "proxy").toList, ro := !s.writable }
     let roots := load false svcList
-    let writableIdx := (List.range n).filter fun i =>
-      match svcs[i]? with
-      | some s => roots.writable.any (fun e => e.1 == s.uuid.toList)
-      | none => false
+    -- glue between loadKeepServers and putReplicas (Model: `writableIdx`, `C11_requests_listed_writable`)
+    let writableIdx := ArvVerif.C11.writableIdx svcList
     -- rendezvous order of the writable services (descending md5(hash ++ uuid suffix))
     let w : Nat → Nat := fun (i : Nat) => match svcs[i]? with
       | some s => md5Nat (h ++ uuidSuffix s.uuid)
@@ -233,8 +240,61 @@ def seqOf (k : String) (rest : List String) : String :=
     if outs.any (· == "bad-op") then "bad-op" else " / ".intercalate outs
   | _, _ => "bad-op"
 
+def showAErr : AErr → String
+  | .eof => "EOF"
+  | .other t => s!"X{t}"
+
+def showAOut : AOut → String
+  | .wrote n => s!"w{n}"
+  | .writeErr e => "we:" ++ showAErr e
+  | .closed => "c"
+  | .reader i => s!"n{i}"
+  | .got bs => "g" ++ hexOfNats bs
+  | .fin e => "e:" ++ showAErr e
+  | .block => "block"
+  | .noReader => "nr"
+
+def parseAOp (t : String) : Option AOp :=
+  if t == "c" then some (.close none)
+  else if t == "n" then some .newReader
+  else if t.startsWith "cx" then (t.drop 2).toString.toNat?.map fun k => .close (some (.other k))
+  else if t.startsWith "w" then
+    let h := (t.drop 1).toString
+    if h.isEmpty then some (.write []) else (bytesOfHex? h).map fun b => .write (bytesToNats b)
+  else if t.startsWith "r" then
+    match (t.drop 1).toString.splitOn ":" with
+    | [i, n] => match i.toNat?, n.toNat? with
+      | some i, some n => some (.read i n)
+      | _, _ => none
+    | _ => none
+  else none
+
+/-- runs the calls; a Read that waits is completed after the next call if that call can wake it -/
+def runAbuf (b : ABuf) (pending : Option (Nat × Nat)) : List AOp → List String
+  | [] => []
+  | op :: rest =>
+    match pending with
+    | some (i, n) =>
+      let wakes := match op with
+        | .write p => !p.isEmpty
+        | .close _ => true
+        | _ => false
+      if !wakes then ["stuck"] else
+      let (b1, o1) := AStep b op
+      let (b2, o2) := AStep b1 (.read i n)
+      showAOut o1 :: showAOut o2 :: runAbuf b2 none rest
+    | none =>
+      let (b1, o) := AStep b op
+      match op, o with
+      | .read i n, .block => "block" :: runAbuf b1 (some (i, n)) rest
+      | _, _ => showAOut o :: runAbuf b1 none rest
+
 def step (line : String) : String :=
   match fields line with
+  | ["abuf", init, ops] =>
+    match (if init == "-" then some ByteArray.empty else bytesOfHex? init), (splitOr "," ops).mapM parseAOp with
+    | some i, some l => joinC (runAbuf (ABuf.new (bytesToNats i)) none l)
+    | _, _ => "bad-op"
   | "put" :: rest => if rest.length == 7 then putOf rest else "bad-op"
   | "seq" :: k :: rest => seqOf k rest
   | ["upl", t] =>
